@@ -55,6 +55,13 @@ def fanout_scenarios(thorough):
     innerm = lambda mc: SM("N", N=dict(Mp(SM("I", I=P(End=True)), End=True), **({"MaxConcurrency": mc} if mc else {})))
     for mco, mci, inp in ((1, 0, [[1], [2]]), (1, 1, [[1, 2], [3, 4]])) + (((2, 1, [[1, 2, 3], [4], [5, 6]]), (2, 0, [[1], [2], [3]])) if thorough else ()):
         out.append(scn("map-map-mc%d-mc%d" % (mco, mci), SM("M", M=dict(Mp(innerm(mci), End=True), MaxConcurrency=mco)), inputs=(inp,)))
+    # an error caught INSIDE a branch / iteration: the join waits for the fallback state of that branch
+    cat = [{"ErrorEquals": ["States.ALL"], "Next": "R", "ResultPath": "$.err"}]
+    out.append(scn("par-inbranch-catch", SM("P", P=Par([SM("A", A=T("f", Catch=cat, End=True), R=P(Next="R2"), R2=P(End=True)),
+                                                        SM("B", B=T("g", End=True))], Next="Z"), Z=P(End=True)),
+                   oracle={"f": [{"error": "Boom"}]}))
+    out.append(scn("map-initer-catch", SM("M", M=Mp(SM("A", A=T("f", Catch=cat, End=True), R=P(Next="R2"), R2=P(End=True)), ItemsPath="$.items", Next="Z"), Z=P(End=True)),
+                   inputs=({"items": [1, 2]},), oracle={"f": [{"error": "Boom"}, {"ok": 2}]}))
     out.append(scn("nest-map-par", SM("M", M=Mp(SM("Q", Q=Par([SM("A", A=T("f", End=True)), SM("B", B=P(End=True))], End=True)), End=True)),
                    inputs=([1, 2],)))
     return out
